@@ -13,11 +13,11 @@ FUNCTIONS_ENCODED = ["Node._receive_message", "Node._receive_app_request/_receiv
                      "Application.send_answer", "PeerConnection.close", "PeerStats/SecondSlotCounter (real, concrete clock)"]
 ASSUMPTIONS = ["inductive step instead of N = 1000: after a warm-up in which every kind of transaction/connection attempt has happened once, two further ones of symbolic kinds leave every container size and the live-thread count unchanged",
                "containers with a maxlen (documented fixed-size windows) are checked against their bound instead", "Application.send_request's blocking wait is not part of this check (C10): outbound requests are sent with route_request/send_message"]
-BOUNDS = {"quick": "after the warm-up: a seeded half of the 17 first operations x every second operation (7 transaction kinds, 10 connection-attempt outcomes); 1 peer", "thorough": "every pair; seeded triples"}
+BOUNDS = {"quick": "after the warm-up: a seeded half of the 18 first operations x every second operation (7 transaction kinds, 10 connection-attempt outcomes); 1 peer", "thorough": "every pair; seeded triples"}
 OUTSIDE = ["N = 1000 runs (replaced by the inductive step)", "2 peers"]
 PEER = B.PEER_HOSTS[0]
 
-OPS = ["conn_while_stopping", "in_req_answered", "in_req_rejected_app", "in_req_rejected_avp", "in_req_rejected_realm", "out_req_answered", "dwr_in", "dwr_out",
+OPS = ["in_req_retransmit_rejected", "conn_while_stopping", "in_req_answered", "in_req_rejected_app", "in_req_rejected_avp", "in_req_rejected_realm", "out_req_answered", "dwr_in", "dwr_out",
        "conn_inbound_then_gone", "conn_unknown_peer", "conn_cer_nocommon", "conn_dial_refused", "conn_dial_async_fail", "conn_dial_cea_rejected",
        "conn_dial_ok_then_closed", "conn_second_of_connected_peer", "conn_silent_until_timeout"]
 
@@ -87,6 +87,12 @@ class Driver(H.Hist):
             self._push(c, B.ccr(PEER, i, i).as_bytes())
             app.send_answer(app.generate_answer(app.requests[-1], result_code=2001))
             self.settle()
+        elif name == "in_req_retransmit_rejected":
+            self._push(c, B.ccr(PEER, i, i).as_bytes())
+            app.send_answer(app.generate_answer(app.requests[-1], result_code=2001))
+            self.settle()
+            j = self.nid()
+            self._push(c, B.ccr(PEER, j, i, flags_extra=0x10).as_bytes())       # failover retransmission: T flag, same end-to-end id
         elif name == "in_req_rejected_app":
             self._push(c, B.ccr(PEER, i, i, app=9).as_bytes())
         elif name == "in_req_rejected_avp":
